@@ -167,6 +167,15 @@ func runC09(c *ctx) {
 		m := fmt.Sprintf("{%d,%d}", r[0], r[1])
 		bads = append(bads, bad{"a" + m, m}, bad{"(ab)" + m + "?", m}, bad{"x[a-c]" + m + "y", m}, bad{"." + m, m})
 	}
+	// class names: only the documented ones are sentences
+	for _, n := range []string{"ASCII", "Ascii", "ascii", "UTF-8", "UTF8", "Any", "All", "Alpha", "Digit", "Word", "Space", "Blank", "Upper", "Lower", "Alnum", "XDigit", "Cntrl", "Print", "Graph", "Punct",
+		"Lette", "Letters", "Lx", "LL", "lu", "LU", "latin", "LATIN", "Hangul", "Arabic", "Hebrew", "Cc", "Cf", "C", "Other", "", "L ", " L", "L}", "Lu}{"} {
+		for _, f := range []string{`\p{%s}`, `\P{%s}`, `[\p{%s}]`, `[^\P{%s}]`, `a\p{%s}+b`} {
+			if c.mine() {
+				c09Check(c, "class-name", fmt.Sprintf(f, n), false)
+			}
+		}
+	}
 	// repetition counts are num = digit+: leading zeros are decimal digits like any other
 	zeros := func(n, z int) string { return strings.Repeat("0", z) + fmt.Sprint(n) }
 	for _, n := range []int{0, 1, 7, 8, 9, 10, 12, 64} {
